@@ -284,7 +284,7 @@ func (s *requestStream) ReadResponse() (*http.Response, error) {
 		res.ContentLength = 0
 	}
 	s.responseBody = respBody
-	if s.requestedGzip && ascii.EqualFold(res.Header.Get("Content-Encoding"), "gzip") {
+	if s.requestedGzip && ascii.EqualFold(compress.ContentEncoding(res.Header), "gzip") {
 		res.Header.Del("Content-Encoding")
 		res.Header.Del("Content-Length")
 		res.ContentLength = -1
@@ -292,7 +292,7 @@ func (s *requestStream) ReadResponse() (*http.Response, error) {
 		res.Uncompressed = true
 	} else if s.AutoDecompression && !s.isHead {
 		// Leave the response alone unless the encoding is one we can decode.
-		if cr := compress.NewCompressReader(respBody, res.Header.Get("Content-Encoding")); cr != nil {
+		if cr := compress.NewCompressReader(respBody, compress.ContentEncoding(res.Header)); cr != nil {
 			res.Header.Del("Content-Encoding")
 			res.Header.Del("Content-Length")
 			res.ContentLength = -1
